@@ -8,6 +8,7 @@
 import concurrent.futures as cf
 import contextlib
 import queue
+import random
 import threading
 import time
 import types
@@ -32,8 +33,13 @@ class InjectedFault(OSError):
 
 
 class Recorder:
-    def __init__(self, roles, rng=None, fault=None, controlled=True, max_workers_override=None):
-        """roles: {filename(str): role name}; fault: dict(role, op, k) -> raise at the k-th (0-based) matching call."""
+    def __init__(self, roles, rng=None, fault=None, controlled=True, max_workers_override=None, task_order='fifo'):
+        """roles: {filename(str): role name}; fault: dict(role, op, k) -> raise at the k-th (0-based) matching call.
+        task_order: the order in which the pool's workers take the submitted tasks: 'fifo' (submission order, what ThreadPoolExecutor does),
+        'lifo' (last submitted first: with band-major submission every block of the last band is processed before any block of the first) or
+        'shuffle' (seeded) - completion order is not promised by the executor, so results must not depend on it."""
+        self.task_order = task_order
+        self.order_rng = random.Random(rng.random()) if rng is not None else random.Random(0)
         self.roles = {str(k): v for k, v in roles.items()}
         self.events = []            # (seq, thread key, kind, role/lock, op, lockset)
         self.lock_names = {}
@@ -215,6 +221,19 @@ class SchedExecutor:
             return
         self.started = True
         rec = SchedExecutor.rec
+        if rec.task_order != 'fifo':
+            items = []
+            while True:
+                try:
+                    items.append(self.q.get_nowait())
+                except queue.Empty:
+                    break
+            if rec.task_order == 'lifo':
+                items.reverse()
+            else:
+                rec.order_rng.shuffle(items)
+            for it in items:
+                self.q.put(it)
         rec.pool_active += 1
         for w in range(min(self.n, max(1, self.count))):
             t = _real_threading.Thread(target=self._work, daemon=True)
